@@ -12,6 +12,6 @@ CONSTANTS
   MaxRequery = 0
   FixCommitState = FALSE
   SeqSMP = FALSE
-  FixSMPReset = FALSE
+  FixSMPReset = TRUE
 INVARIANTS NoNilKey
 CHECK_DEADLOCK FALSE
